@@ -7,6 +7,10 @@ PROP = 'C04'
 DATE = datetime.datetime(2021, 3, 4, 5, 6, 7)
 
 
+def _txt(x):
+    return x.decode('utf8') if isinstance(x, bytes) else str(x)
+
+
 def _check_written(t, a, sig, **kw):
     store = new_store()
     _, e = call(lambda: t.to_hdf5(store, 'verif-c04', creation_date=DATE, **kw))
@@ -33,6 +37,22 @@ def _check_written(t, a, sig, **kw):
         cats = sorted(md[0]) if md else []
         if n and sorted(got[0]) != cats:
             fail('layout:metadata-categories', f"{ax}: {sorted(got[0])} vs {cats}", **sig)
+        elif n and md:
+            # a reader following only the specification recovers every per-id entry with its element kind: text as text, numbers
+            # as numbers, hierarchical lists as the row of their (non-empty) levels
+            for k in range(n):
+                for cat, want in md[k].items():
+                    have = got[k][cat]
+                    if isinstance(want, (list, tuple)):
+                        ok = [_txt(x) for x in list(have) if _txt(x) != ''] == [str(x) for x in want]
+                    elif isinstance(want, str):
+                        ok = isinstance(have, (bytes, str)) and _txt(have) == want
+                    elif isinstance(want, bool) or isinstance(want, (int, float)):
+                        ok = not isinstance(have, (bytes, str)) and float(have) == float(want)
+                    else:
+                        ok = True
+                    if not ok:
+                        fail('layout:metadata-entry', f"{ax} #{k} {cat}: {have!r} for {want!r}", **sig)
     if d['attrs']['type'] not in ('OTU table', '', b'OTU table', b''):
         fail('layout:type', str(d['attrs']['type']), **sig)
     return d
@@ -135,6 +155,6 @@ META = {
                 'biom/parse.py': ['parse_biom_table']},
     'bounds': {'quick': {'shapes': '2x2, 2x3 (<=1 explicit zero); 0xM, Nx0, 0x0, all-zero'}, 'thorough': {'shapes': 'up to 3x3, <=2 explicit zeros'}},
     'outside': ['on-disk HDF5 types as materialised by the real library, compression filters (the real h5py is only used in replays)',
-                'metadata VALUE fidelity (C01)'],
+                'metadata values beyond the menus used here (text, int, float, hierarchical list): C01'],
     'assumptions': ['h5py model: create_dataset checks shape against payload and applies the declared dtype (validated against real h5py each run)'],
 }
